@@ -53,6 +53,13 @@ CHECKS = {
  "C19": dict(ref="5/C19", tech="deterministic simulation + seeded fault/schedule search; independent certificate checker on every emitted QC/TC",
    text="Exploration: every QC and TC an honest node emits (in proposals, timeouts, TC broadcasts) is re-verified independently (distinct members, quorum stake, every signature valid for one (block, round) resp. (round, high-QC round)); no TC is sent twice to a peer.",
    note="The exactly-when half is decided in the puppet world."),
+
+ "C04": dict(ref="5/C04", tech="deterministic simulation (puppet world: one real node, harness holds all other keys) + seeded search over 28 kinds of invalid variant; 'no effect' oracles on votes, store writes, round evidence and emitted certificates",
+   text="Exploration: invalid variants of proposals, votes, timeouts, QCs and TCs (flipped signature bits, altered signed fields with the signature kept, signatures transplanted between blocks and message kinds, repeated / non-member signers, one signer below quorum, certificates over another round or for future rounds) are delivered between valid traffic; the node must never vote for, store or commit a block of which it only saw an invalid variant, never act in a round that only an invalid certificate justifies, never emit a certificate containing an invalid vote/timeout, and must still vote for the next valid proposal after rejections.",
+   note="The twin-run non-interference oracle of DESIGN.md was not built; 'behaviour unchanged' is judged through the no-effect oracles and the expected-vote model."),
+ "C20": dict(ref="5/C20", tech="deterministic simulation (puppet world) + seeded single-field-variant and cross-kind splice injection judged by the node's reaction; store/wire round trip through the real sync path",
+   text="Exploration: variants differing in one bound field (author, round, payload entry, parent, payload/parent boundary shift, swapped round/QC round) or carrying a signature of another kind (vote<->timeout<->block) re-use the original signature and must be rejected (no vote, no store); blocks fetched from the node's helper must be byte-identical to a block it was given under that digest; every frame the node writes must decode and its own signatures must verify under the independently computed digests.",
+   note="Parts (a)/(b) of the statement are pure; they are decided here only through the real node's reaction to injected variants (input generation inside a simulation), as DESIGN.md states."),
 }
 
 NOT_APPLICABLE = {
